@@ -33,7 +33,7 @@ IU = 'utils.iter_utils'
 
 
 def run(ctx: Ctx):
-  for r in (r1, r2, r3, r4, r6, r10, r11, r12, r13, r14, r15):
+  for r in (r1, r2, r3, r4, r6, r10, r11, r12, r13, r14, r15, r16):
     ctx.guard(r)
   from mlmverif.props import c04
   from mlmverif.props._queue import model as qmodel
@@ -819,10 +819,69 @@ def r15(ctx: Ctx):
   ctx.floor(rule, 1, n)
 
 
+def r16(ctx: Ctx):
+  rule = 'R-C13-16'
+  ctx.rule(rule, '"when the stream ... fails ..., all helper threads finish": piter launches the feeder threads of its input queue'
+           ' BEFORE it builds the workers, and building them calls the user\'s worker function. Every `piter_fn(...,'
+           ' input_iterable=<queue>)` call of piter therefore sits in a try whose handler (BaseException / Exception / bare)'
+           ' stops that queue (`<queue>.maybe_stop()`) and re-raises: without it a worker function that raises when it is'
+           ' called (wrong arity, eager validation) makes piter raise while the feeders stay blocked in put() on the full'
+           ' input queue, with no handle left to stop them')
+  mi = ctx.repo.module('utils.iter_utils')
+  fi = mi.functions.get('piter')
+  if fi is None:
+    raise AnalysisError('iter_utils.piter not found')
+  feeds = {t.id for x in walk_no_nested(fi.node) if isinstance(x, ast.Assign) and isinstance(x.value, ast.Call)
+           and unparse(x.value.func) == 'piter_multiplex' for t in x.targets if isinstance(t, ast.Name)}
+  if not feeds:
+    raise AnalysisError(f'{rule}: piter no longer binds the multiplexed input queue to a name')
+  pm = parent_map(fi.node)
+  n = 0
+  for c in walk_no_nested(fi.node):
+    if not (isinstance(c, ast.Call) and unparse(c.func) == 'piter_fn'):
+      continue
+    q_ = kwarg(c, 'input_iterable')
+    if not (isinstance(q_, ast.Name) and q_.id in feeds):
+      continue
+    n += 1
+    guarded = False
+    x = c
+    while x in pm:
+      par = pm[x]
+      if isinstance(par, ast.Try) and any(x is b for b in par.body):
+        for h in par.handlers:
+          broad = h.type is None or unparse(h.type) in ('BaseException', 'Exception') or (
+              isinstance(h.type, ast.Tuple) and any(unparse(e) in ('BaseException', 'Exception') for e in h.type.elts))
+          stops = any(isinstance(y, ast.Call) and isinstance(y.func, ast.Attribute) and y.func.attr == 'maybe_stop'
+                      and isinstance(y.func.value, ast.Name) and y.func.value.id == q_.id for b in h.body for y in ast.walk(b))
+          reraises = any(isinstance(y, ast.Raise) for b in h.body for y in ast.walk(b))
+          if broad and stops and reraises:
+            guarded = True
+        if par.finalbody and any(isinstance(y, ast.Call) and isinstance(y.func, ast.Attribute) and y.func.attr == 'maybe_stop'
+                                 for b in par.finalbody for y in ast.walk(b)):
+          pass   # a `finally` that always stops would also stop the successful stream: not accepted
+      x = par
+    what = f'piter: a failure of `piter_fn(..., input_iterable={q_.id})` stops the feeders of `{q_.id}`'
+    if guarded:
+      ctx.ok(rule, fi, what, c)
+    else:
+      ctx.fail(rule, fi, what,
+               f'`{unparse(c)[:60]}` can raise (it calls the worker function) after the feeder threads of `{q_.id}` were started,'
+               f' and no handler stops `{q_.id}`: piter raises to its caller while the feeders stay blocked in put() for good',
+               node=c)
+  ctx.floor(rule, 1, n)
+
+
 from mlmverif.selfcheck import B, OK  # noqa: E402
 
 _F = 'utils/iter_utils.py'
 VARIANTS = [
+    B('revert-failed-setup-stops-the-feeders', 'utils/iter_utils.py',
+      "  except BaseException:\n    # The threads feeding the input queue are already running: they would stay\n    # blocked on the full queue for good, the caller cannot stop them.\n    if isinstance(input_iterable, IteratorQueue):\n      input_iterable.maybe_stop()\n    raise\n",
+      "  except BaseException:\n    raise\n", 'R-C13-16'),
+    OK('failed-setup-stops-the-feeders-on-exception', 'utils/iter_utils.py',
+       "  except BaseException:\n    # The threads feeding the input queue are already running: they would stay\n    # blocked on the full queue for good, the caller cannot stop them.\n    if isinstance(input_iterable, IteratorQueue):\n      input_iterable.maybe_stop()\n    raise\n",
+       "  except Exception as setup_error:\n    if isinstance(input_iterable, IteratorQueue):\n      input_iterable.maybe_stop()\n    raise setup_error\n"),
     B('link-tests-before-it-registers', 'utils/iter_utils.py',
       "    self._stopped_with.append(other)\n    if self.enqueue_done:\n      # Already over, e.g., failed on the very first element.\n      other.maybe_stop()\n",
       "    if self.enqueue_done:\n      # Already over, e.g., failed on the very first element.\n      other.maybe_stop()\n      return\n    self._stopped_with.append(other)\n", 'R-C13-12'),
@@ -872,7 +931,7 @@ VARIANTS = [
     B('stop-link-not-honoured-by-maybe-stop', 'utils/iter_utils.py',
       '    for other in self._stopped_with:\n      other.maybe_stop()\n', '', 'R-C13-10'),
     OK('stop-link-variable-renamed', 'utils/iter_utils.py',
-       '  result = piter_fn(\n      iterator_fn,', '  out_queue = piter_fn(\n      iterator_fn,',
+       '    result = piter_fn(\n        iterator_fn,', '    out_queue = piter_fn(\n        iterator_fn,',
        extra=[('utils/iter_utils.py', '  if isinstance(result, IteratorQueue) and isinstance(\n      input_iterable, IteratorQueue\n  ):', '  if isinstance(out_queue, IteratorQueue) and isinstance(\n      input_iterable, IteratorQueue\n  ):'),
               ('utils/iter_utils.py', '    result.stop_with(input_iterable)\n  return result\n', '    out_queue.stop_with(input_iterable)\n  return out_queue\n')]),
     B('multiplex-only-with-enough-sources', _F,
